@@ -1,7 +1,7 @@
 #!/bin/bash
 # usage: try_seed.sh <patch.diff> <PROP>   -- run PROP's check on a scratch copy of /repo with the patch applied
 S=/tmp/try_seed.$$
-rm -rf $S; mkdir -p $S; rsync -a --exclude .git /repo/ $S/
+rm -rf $S; mkdir -p $S; rsync -a --exclude .git ${TRY_BASE:-/repo}/ $S/
 (cd $S && patch -s -p1 < $1) || { echo "patch does not apply"; rm -rf $S; exit 2; }
 GOVC_REPO=$S timeout 900 /verif/bin/govc check --property $2 2>&1 | grep -E "^(VIOLATION|FAILED|KNOWN|property)" | cut -c1-220
 rm -rf $S
